@@ -304,6 +304,7 @@ func newExplorer(c *core.Ctx, poolName string, depth int, alpha func(int) []*op)
 func run(c *core.Ctx) {
 	full := func(int) []*op { return ops }
 	ext := extending()
+	extObs := append(append([]*op{}, ext...), observers()...)
 	names := poolNames
 	if c.Thorough() {
 		c.Bound("depth_full_alphabet", 3)
@@ -318,12 +319,14 @@ func run(c *core.Ctx) {
 		if c.Thorough() {
 			// full alphabet to depth 3
 			newExplorer(c, pn, 3, full).explore(0)
-			// depth 4: extending/aliasing sub-alphabet at the first three steps, full alphabet last
+			// depth 4: extending/aliasing sub-alphabet at the first three steps; the last step adds the
+			// observing operations (writers, scans) — every other operation has already been applied
+			// to every state the full alphabet reaches at depth 3
 			newExplorer(c, pn, 4, func(l int) []*op {
 				if l < 3 {
 					return ext
 				}
-				return ops
+				return extObs
 			}).explore(0)
 		} else {
 			newExplorer(c, pn, 2, full).explore(0)
